@@ -153,15 +153,7 @@ func runC02(c *Ctx) {
 	c02EnumOrder(c)
 	c02BoundedAppend(c, c.P.ModulePkgs())
 	p := c.P
-	sorterMemo := map[*types.Func]bool{}
-	moduleSortFunc = func(fn *types.Func) bool {
-		if v, ok := sorterMemo[fn]; ok {
-			return v
-		}
-		v := inPlaceSorter(p, fn)
-		sorterMemo[fn] = v
-		return v
-	}
+	bindModuleSortFunc(p)
 	c.Rule("R-MAPORDER", "every iteration over a map in product code has order-insensitive effects, sorts what it appends before use, or is in the reasoned triage table", 110)
 	c.Rule("TRIAGE-REASON", "reasons of triage entries that can be checked are checked (prefix-free literal tables, single-element guards)", 4)
 	c.Rule("MAPORDER-SOURCE", "slices born in map order (MapKeysToSlice, MapValuesToSlice, maps.Keys/Values) are sorted before use or consumed order-insensitively", 10)
@@ -181,54 +173,7 @@ func runC02(c *Ctx) {
 			outScope += len(findMapLoops(p, pk))
 			continue
 		}
-		for _, l := range findMapLoops(p, pk) {
-			c.FuncsAnalysed++
-			classifyLoop(p, l, func(fn *types.Func) bool { return c02Absorbing(fn) })
-			// handler callbacks invoked by the rule adapters
-			for i, e := range l.Effects {
-				if e.Kind == "effect-call" && strings.HasPrefix(e.Detail, "dynamic ") && c02HandlerCallback(l, e) {
-					l.Effects[i].Kind = "absorbing-call"
-				}
-			}
-			v, bad := l.verdict()
-			switch v {
-			case "commutative":
-				c.Ob("R-MAPORDER", l.Key, l.Range.Pos(), true, len(l.Effects) > 0, "commutative effects only: %s", effectSummary(l.Effects))
-			case "error-choice":
-				c.Ob("R-MAPORDER", l.Key, l.Range.Pos(), true, true, "commutative effects plus early non-nil error return (which error is reported may depend on order: stated limitation): %s", effectSummary(l.Effects))
-			case "append":
-				seen := map[types.Object]bool{}
-				for _, e := range l.Effects {
-					if e.Kind != "append" || e.Obj == nil || seen[e.Obj] {
-						continue
-					}
-					seen[e.Obj] = true
-					inst := l.Key + "/" + e.Obj.Name()
-					ok, why := sortedBeforeUse(p, l, e.Obj, c02ConsumerSorts)
-					if !ok {
-						if r, has := c02AppendTriage[inst]; has {
-							usedAppend[inst] = true
-							c.Ob("R-MAPORDER", inst, e.Pos, true, true, "slice filled in map order, reviewed: %s", r)
-							continue
-						}
-					}
-					c.Ob("R-MAPORDER", inst, e.Pos, ok, true, "slice %s is appended to in map order: %s", e.Obj.Name(), why)
-				}
-			default:
-				if t, ok := c02Triage[l.Key]; ok {
-					usedTriage[l.Key] = true
-					if t.class == "finding" {
-						c.Ob("R-MAPORDER", l.Key, l.Range.Pos(), false, true, "%s", t.reason)
-					} else {
-						c.Ob("R-MAPORDER", l.Key, l.Range.Pos(), true, true, "order-sensitive effects (%s), reviewed: %s", effectSummary(bad), t.reason)
-						c02CheckReason(c, l, t)
-					}
-					continue
-				}
-				e := bad[0]
-				c.Ob("R-MAPORDER", l.Key, e.Pos, false, true, "unreviewed order-sensitive iteration over %s: %s (%s)", exprString(l.Range.X), effectSummary(bad), e.Detail)
-			}
-		}
+		ruleMapOrderPkg(c, "R-MAPORDER", pk, usedTriage, usedAppend)
 	}
 	c.Note("R-MAPORDER: %d map iterations in out-of-scope packages (c02OutOfScope) were counted, not classified", outScope)
 	for k := range c02Triage {
@@ -1099,5 +1044,80 @@ func c02Lockset(c *Ctx) {
 			c.Ob("LOCKSET", fr.ID()+"/"+kind, id.Pos(), held, true, "%s of globalParallelism holds the %s lock: %v", kind, map[bool]string{true: "exclusive", false: "shared or exclusive"}[write], held)
 			return true
 		})
+	}
+}
+
+// ruleMapOrderPkg classifies every map iteration of one package (the body of R-MAPORDER; shared with properties whose
+// behaviour depends on the same loops, e.g. the image path filter for C11).
+func ruleMapOrderPkg(c *Ctx, rule string, pk *packages.Package, usedTriage, usedAppend map[string]bool) {
+	p := c.P
+	bindModuleSortFunc(p)
+	for _, l := range findMapLoops(p, pk) {
+		c.FuncsAnalysed++
+		classifyLoop(p, l, func(fn *types.Func) bool { return c02Absorbing(fn) })
+		// handler callbacks invoked by the rule adapters
+		for i, e := range l.Effects {
+			if e.Kind == "effect-call" && strings.HasPrefix(e.Detail, "dynamic ") && c02HandlerCallback(l, e) {
+				l.Effects[i].Kind = "absorbing-call"
+			}
+		}
+		v, bad := l.verdict()
+		switch v {
+		case "commutative":
+			c.Ob(rule, l.Key, l.Range.Pos(), true, len(l.Effects) > 0, "commutative effects only: %s", effectSummary(l.Effects))
+		case "error-choice":
+			c.Ob(rule, l.Key, l.Range.Pos(), true, true, "commutative effects plus early non-nil error return (which error is reported may depend on order: stated limitation): %s", effectSummary(l.Effects))
+		case "append":
+			seen := map[types.Object]bool{}
+			for _, e := range l.Effects {
+				if e.Kind != "append" || e.Obj == nil || seen[e.Obj] {
+					continue
+				}
+				seen[e.Obj] = true
+				inst := l.Key + "/" + e.Obj.Name()
+				ok, why := sortedBeforeUse(p, l, e.Obj, c02ConsumerSorts)
+				if !ok {
+					if r, has := c02AppendTriage[inst]; has {
+						usedAppend[inst] = true
+						c.Ob(rule, inst, e.Pos, true, true, "slice filled in map order, reviewed: %s", r)
+						continue
+					}
+				}
+				c.Ob(rule, inst, e.Pos, ok, true, "slice %s is appended to in map order: %s", e.Obj.Name(), why)
+			}
+		default:
+			if t, ok := c02Triage[l.Key]; ok {
+				usedTriage[l.Key] = true
+				if t.class == "finding" {
+					c.Ob(rule, l.Key, l.Range.Pos(), false, true, "%s", t.reason)
+				} else {
+					c.Ob(rule, l.Key, l.Range.Pos(), true, true, "order-sensitive effects (%s), reviewed: %s", effectSummary(bad), t.reason)
+					c02CheckReason(c, l, t)
+				}
+				continue
+			}
+			e := bad[0]
+			c.Ob(rule, l.Key, e.Pos, false, true, "unreviewed order-sensitive iteration over %s: %s (%s)", exprString(l.Range.X), effectSummary(bad), e.Detail)
+		}
+	}
+}
+
+// bindModuleSortFunc (re)binds the memoised "is this module function an in-place sorter" oracle to the program being
+// checked: a binding left over from another loaded variant would consult the wrong syntax (and keep it alive).
+var moduleSortProg *Prog
+
+func bindModuleSortFunc(p *Prog) {
+	if moduleSortProg == p && moduleSortFunc != nil {
+		return
+	}
+	moduleSortProg = p
+	memo := map[*types.Func]bool{}
+	moduleSortFunc = func(fn *types.Func) bool {
+		if v, ok := memo[fn]; ok {
+			return v
+		}
+		v := inPlaceSorter(p, fn)
+		memo[fn] = v
+		return v
 	}
 }
